@@ -226,7 +226,30 @@ impl Scenario for C03 {
             for _ in 0..3 {
                 let purpose = if b.rng.bool() && f != 1 { Purp::Public } else { Purp::Local };
                 let bk = nodes[0];
-                let base = b.now_ns;
+                // around now, or in a year whose leap rule differs between calendars (1900, 2100, 2200:
+                // divisible by 100 and not by 400; 2000, 2400: by 400), before and after the end of February,
+                // or far from the present
+                let civil = |y: i64, m: i64, d: i64| -> i128 {
+                    // days from civil (Howard Hinnant), noon UTC
+                    let yy = if m <= 2 { y - 1 } else { y };
+                    let era = if yy >= 0 { yy } else { yy - 399 } / 400;
+                    let yoe = yy - era * 400;
+                    let mp = (m + 9) % 12;
+                    let doy = (153 * mp + 2) / 5 + d - 1;
+                    let doe = yoe * 365 + yoe / 4 - yoe / 100 + doy;
+                    ((era * 146097 + doe - 719468) as i128 * 86400 + 43200) * 1_000_000_000
+                };
+                let base = match b.rng.below(10) {
+                    0 => civil(2100, 3, 1),
+                    1 => civil(2100, 2, 28),
+                    2 => civil(1900, 12, 31),
+                    3 => civil(2200, 7, 15),
+                    4 => civil(2000, 3, 1),
+                    5 => civil(2400, 2, 29),
+                    6 => civil(9000, 6, 1),
+                    7 => civil(1, 3, 1),
+                    _ => b.now_ns,
+                };
                 let day = 86_400_000_000_000i128;
                 let (nbf, iat, exp) = (base - day + b.rng.below(3_600_000_000_000) as i128, base - day / 2, base + day + b.rng.below(3_600_000_000_000) as i128);
                 let mut members = Vec::new();
